@@ -130,13 +130,26 @@ def make_eom(veff, M, offEq, nf):
     return eom
 
 
-def tolerance(M, offEq):
-    """Quadrature accuracy of the UNCHANGED code (relative to |Delta V|), calibrated on the
-    sweep recorded in the evidence (`calibration`): spectral decay in M down to the
-    rounding floor of the finite-difference gradient, times a safety margin."""
+TOLERANCE_RULE = (
+    "|p - dV|/|dV| <= min(1, 10 (E_M + E_R)) + 3e-9 Vscale/|dV|, R = M min(width)/L the "
+    "number of grid points per narrowest returned wall (L = half extent of the returned "
+    "wall as in _updateGrid), Vscale = max |V| at the two phases (rounding floor of the "
+    "finite-difference gradient); equal tails: E_M = 0, E_R = 10^(3 - 0.48 R); unequal tails "
+    "(includeOffEq): E_M = 10^(-0.5 - 0.065 (min(M,120) - 40) - 0.03 max(0, M - 120)), "
+    "E_R = 10^(-0.12 R); fitted to the worst of 3840 evaluations of the unchanged code "
+    "(largest observed error/tolerance 0.12 where the cap 1 is not reached, 0.30 at M < 45 "
+    "with unequal tails where the quadrature is accurate to tens of percent only)")
+
+
+def tolerance(M, offEq, R, vscale_over_dV):
+    """Quadrature accuracy of the UNCHANGED code relative to |Delta V| (see TOLERANCE_RULE)"""
     if offEq:
-        return max(3e-7, min(0.3, 0.6 * math.exp(-0.19 * (M - 40))))
-    return max(2e-9, min(0.05, 0.05 * math.exp(-0.42 * (M - 40))))
+        eM = 10 ** (-0.5 - 0.065 * (min(M, 120) - 40) - 0.03 * max(0, M - 120))
+        eR = 10 ** (-0.12 * R)
+    else:
+        eM = 0.0
+        eR = 10 ** (3 - 0.48 * R)
+    return min(1.0, 10 * (eM + eR)) + 3e-9 * vscale_over_dV
 
 
 def t_profile(case, n):
@@ -190,6 +203,12 @@ def run_case(case):
     dV = float(np.ravel(veff.evaluate(lo, Tref))[0] - np.ravel(veff.evaluate(hi, Tref))[0])
     out.update(pressure=float(p), deltaV=dV, rel=abs(float(p) - dV) / abs(dV),
                returned=[list(map(float, wpo.widths * TN)), list(map(float, wpo.offsets))])
+    wr, orr = np.asarray(wpo.widths, dtype=float), np.asarray(wpo.offsets, dtype=float)
+    Lret = (np.max((1 - orr) * wr) - np.min((-1 - orr) * wr)) / 2
+    out["R"] = float(case["M"] * np.min(wr) / Lret)
+    out["vscale_over_dV"] = float(max(abs(np.ravel(veff.evaluate(lo, Tref))[0]),
+                                      abs(np.ravel(veff.evaluate(hi, Tref))[0])) / abs(dV))
+    out["tol"] = tolerance(case["M"], case["offEq"], out["R"], out["vscale_over_dV"])
     # the generated integrand, rebuilt from the RETURNED wall parameters on the grid the
     # caller sees (statement of Coq lemmas integrand_1 / integrand_2)
     fields, dphi = eom.wallProfile(grid.xiValues, lo, hi, wpo)
@@ -255,7 +274,7 @@ def gen_case(rng, tier_M):
 
 def judge(ctx, case, res):
     """compare one evaluation with the property; report failing inputs"""
-    tol = tolerance(case["M"], case["offEq"])
+    tol = res["tol"]
     ok = True
     tag = "M=%d offEq=%s vMid=%g %s %s" % (case["M"], case["offEq"], case["vMid"],
                                            case["kind"], case["mode"])
@@ -370,8 +389,19 @@ From Interval Require Import Tactic.
 From WG Require Import Lib.NumpySem.
 From GenC09 Require Import EomProfile.
 Local Open Scope R_scope.
+(* Rmax / Rmin are eliminated by cases; the infeasible case is refuted by interval *)
+Ltac case_le a b :=
+  let H := fresh "H" in
+  destruct (Rle_dec a b) as [H|H];
+  [ first [ (exfalso; apply (Rle_not_lt _ _ H); interval with (i_prec 90)) | clear H ]
+  | first [ (exfalso; apply H; interval with (i_prec 90)) | clear H ] ].
 Ltac ev := unfold updateGrid1, updateGrid2; cbv zeta; cbn [fst snd];
            cbn [ug_meanFreePathScale ug_includeOffEq smoothing ratioPointsWall];
+           unfold Rmax, Rmin;
+           repeat match goal with |- context [Rle_dec ?a ?b] =>
+             tryif (match a with context [Rle_dec _ _] => idtac end) then fail else
+             tryif (match b with context [Rle_dec _ _] => idtac end) then fail else
+             case_le a b end;
            interval with (i_prec 90).
 """
     goals = []
@@ -494,7 +524,7 @@ def run(ctx):
         ctx.count("slice_vs_returned_wall")
         judge(ctx, case, res)
         k = "%d/%s" % (case["M"], "offEq" if case["offEq"] else "eq")
-        r = res["rel"] / tolerance(case["M"], case["offEq"])
+        r = res["rel"] / res["tol"]
         if r > worst.get(k, (0, 0))[0]:
             worst[k] = (round(r, 4), res["rel"])
         if len(ctx.cov["samples"]) < 5:
@@ -503,8 +533,7 @@ def run(ctx):
                             tails=res["tails"]))
     ctx.cov["calibration"] = dict(
         note="worst (rel.error / tolerance, rel.error) per M/grid setting on this run",
-        worst=worst, tolerance="offEq: max(3e-7, min(0.3, 0.6 exp(-0.19 (M-40)))); "
-                               "eq: max(2e-9, min(0.05, 0.05 exp(-0.42 (M-40))))")
+        worst=worst, tolerance=TOLERANCE_RULE)
     ctx.log("largest error/tolerance ratio: %s" % (max(worst.values())[0] if worst else None))
     ctx.cov["rule"] = (
         "potentials: 1-field quartic (3 coefficients varied), 2-field quartic with portal "
@@ -535,7 +564,7 @@ def replay(rep):
     if "case" in rep and rep.get("kind") in ("pressure", "slice", "jacobian"):
         res = run_case(rep["case"])
         print("re-evaluated:", json.dumps(res, indent=1))
-        tol = tolerance(rep["case"]["M"], rep["case"]["offEq"])
+        tol = res["tol"]
         bad = res["rel"] > tol or res["slice_rel"] > 1e-11 or res["jac_rel"] > 1e-5
         print("tolerance", tol, "->", "FAILS" if bad else "passes")
         return 1 if bad else 0
